@@ -156,7 +156,7 @@ func c09Run(rc *RunCtx, params any) {
 						}
 						if len(p.RebindAt) > 0 {
 							// spread the writes over the round trips in which the path is validated
-							time.Sleep(time.Duration(1+(k*5+w*3)%4) * time.Millisecond)
+							s.Sleep(time.Duration(1+(k*5+w*3)%4) * time.Millisecond)
 						}
 					}
 				})
